@@ -365,11 +365,23 @@ def rk_oracle(ck, cls, rng):
             fails.append(('uend_last_stage', x))
     key = ('RK', cls.__name__)
     ck.case(key=key, sample={'kind': 'RK', 'class': cls.__name__, 'stages': M, 'imex': imex})
+    coq = None
+    if not imex:
+        z = [[0] * dim]
+        fields = [
+            'c_kind := GI', 'c_M := %d%%nat' % M, 'c_dt := %s' % qc(dtq), 'c_t0 := %s' % qc(0),
+            'c_nodes := %s' % qcl(nodes), 'c_Q := %s' % qcm([[0]]), 'c_w := %s' % qcl([0]),
+            'c_QA := %s' % qcm(A), 'c_QB := %s' % qcm([[0]]),
+            'c_prob := {| p_dim := %d%%nat; p_lam := %s; p_mu := %s; p_c := %s |}' % (dim, qcm([pp['lam']]), qcm(z), qcm([pp['c']])),
+            'c_u := %s' % qcm([u0] + [[0] * dim] * M), 'c_f := %s' % coq_list([qcm(z)] * (M + 1)),
+            'c_tau := %s' % coq_list(['None'] * (M + 1)), 'c_rin := true', 'c_docoll := false']
+        coq = (cls.__name__, '({| %s |}, %s)' % ('; '.join(fields), qcl(sum(un[1:], []))))
     for fl in fails:
         ck.violation('%s: Runge-Kutta sweeper violates its stage form (%s)' % (cls.__name__, fl[0]),
                      {'class': cls.__name__, 'dt': dt, 'u0': [str(v) for v in u0], 'problem': {k: [str(a) for a in v] for k, v in pp.items()}, 'failure': fl},
                      match={'kind': 'rk-' + fl[0], 'class': cls.__name__})
         break
+    return coq
 
 
 def mass_oracle(ck, rng):
@@ -510,7 +522,7 @@ def run(ck):
     ck.rule = ('seeded cases over (sweeper class, M, node family, quadrature type, preconditioner name(s), sweep index k, tau mode, '
                'end-point mode, table source exact-float-image/injected-rational, dimension); distinct = that tuple; non-trivial = M >= 2 '
                'or tau present (a one-node sweep without tau has no off-diagonal coupling)')
-    ck.check_props(required=['C02_generic_implicit_matrix_form', 'C02_imex_matrix_form', 'C02_explicit_matrix_form', 'C02_multi_implicit_two_stage_form',
+    ck.check_props(required=['C02_generic_implicit_matrix_form', 'C02_imex_matrix_form', 'C02_explicit_matrix_form', 'C02_multi_implicit_two_stage_form', 'C02_runge_kutta_stage_form',
                              'C02_integrate_is_dtQF', 'C02_end_point_quadrature', 'C02_residual_is_defect'])
     from qmat.qdelta import QDELTA_GENERATORS
     from pySDC.implementations.sweeper_classes.generic_implicit import generic_implicit
@@ -589,12 +601,33 @@ def run(ck):
     ck.obligation('exact correspondence model = implementation on %d sweeps' % len(cases), ndiff == 0)
 
     # other sweepers: oracle in exact arithmetic
+    rk_cases = []
     for cls in rk_classes():
         for _ in range(3 if thorough else 1):
             try:
-                rk_oracle(ck, cls, rng)
+                c = rk_oracle(ck, cls, rng)
+                if c:
+                    rk_cases.append(c)
             except ZeroDivisionError:
                 pass
+    if rk_cases:
+        body = ['From Coq Require Import List ZArith QArith Qcanon.', 'From PySDC Require Import Model.Sweep Model.SweepExec.',
+                'Import ListNotations.', 'Definition cases : list (case * list Qc) := [', ';\n'.join(c[1] for c in rk_cases), '].',
+                'Eval vm_compute in map check_rk_case cases.']
+        rc, out = ck.coqc(ck.write_gen('RKCases.v', '\n'.join(body) + '\n'), timeout=900)
+        if rc != 0:
+            ck.obligation('RK model evaluation', False, out[-800:])
+            ck.violation('generated RK cases do not compile/evaluate', {'log': out[-3000:]}, match={'kind': 'gen'}, no_input=True)
+        else:
+            res = parse_coq_value(eval_outputs(out)[0])
+            nb = 0
+            for (name, _), r in zip(rk_cases, res):
+                ck.traces += 1
+                if r != -1:
+                    nb += 1
+                    ck.violation('Runge-Kutta model and real sweeper %s differ at stage value #%d' % (name, r),
+                                 {'correspondence': 'Model/SweepExec.run_rk vs ' + name, 'class': name}, match={'kind': 'rk-correspondence', 'class': name}, no_input=True)
+            ck.obligation('exact correspondence RK model = implementation on %d Runge-Kutta classes' % len(rk_cases), nb == 0)
     for _ in range(24 if thorough else 8):
         try:
             mass_oracle(ck, rng)
